@@ -329,7 +329,7 @@ def run_unit(unit, work, tier='quick'):
         rc, out, err, _ = sh(gi, log=log, timeout=300)
         if rc != 0:
             raise Undecided('goto-instrument failed: ' + (err or out)[-1200:])
-        timeout = unit.get('timeout_thorough', unit.get('timeout', 300)) if tier == 'thorough' else unit.get('timeout', 300)
+        timeout = unit.get('timeout_thorough', max(1200, 3 * unit.get('timeout', 300))) if tier == 'thorough' else unit.get('timeout', 300)
         if unit.get('frame_only'):
             # the unconstrained harness makes every index assertion fail: no traces (they dominate the run time), no standard checks
             base = ['cbmc', os.path.join(d, 'b.gb'), '--no-malloc-may-fail', '--no-standard-checks', '--json-ui']
@@ -389,6 +389,8 @@ def parse_cbmc(out, res, unit):
     res['obligations'] = len(results)
     exp_fail = [re.compile(x) for x in unit.get('expect_fail', [])]
     for r in results:
+        if 'obj_set_create_indexed_by_object_id' in r.get('property', '') and r.get('status') != 'SUCCESS':
+            raise Undecided('DFCC object table overflow (raise object_bits for this unit): %s' % r.get('property'))
         if 'undefined function should be unreachable' in r.get('description', '') and r.get('status') != 'SUCCESS':
             raise Undecided('a call to a body-less function is reachable (DFCC cuts the path there): %s' % r.get('property'))
     if unit.get('frame_only') and not unit.get('only'):
